@@ -73,9 +73,8 @@ def _menu():
 
 MENU = _menu()
 NMENU = len(MENU)
-# migration menus (C02 / C10): no link commands - the stand-in for std lacks what links
-# need beyond creation (std::exclusive, link properties source/target)
-MIG_MENU = [i for i, (label, _f) in enumerate(MENU) if ' link ' not in label and 'union_of' not in label]
+# migration menus (C02 / C10): everything except the internal union_of field
+MIG_MENU = [i for i, (label, _f) in enumerate(MENU) if 'union_of' not in label]
 NMIG = len(MIG_MENU)
 
 RECIPES = {
@@ -91,15 +90,28 @@ RECIPES[4] = ['create default::T1', 'create default::T2', 'create default::T0 ex
 RECIPES[5] = ['create default::T0', 'create default::T1 extending default::T0', 'create property default::T0.p -> str',
               'create annotation note', 'annotate default::T0']
 RECIPES[3] = RECIPES[3]
-MIG_RECIPES = (0, 1, 4, 5)
+MIG_RECIPES = (0, 1, 4, 5, 2, 3)      # the quick tier uses the first four
 _LABEL = {label: i for i, (label, _f) in enumerate(MENU)}
 
 
-def recipe_schema(r: int):
-    s = K.base_schema()
-    for label in RECIPES[r]:
-        s = MENU[_LABEL[label]][1](s)
-    return s
+_RECIPE_SCHEMAS = {}
+
+
+def recipe_schema(r: int, seed: int = 0):
+    """Recipe r built with ids drawn from (seed, r * 10000 ...): the same objects get the same
+    ids in every process."""
+    key = (r, seed)
+    if key not in _RECIPE_SCHEMAS:
+        st = K.id_state()
+        K.reset_ids(seed, start=r * 10000)
+        try:
+            s = K.base_schema()
+            for label in RECIPES[r]:
+                s = MENU[_LABEL[label]][1](s)
+        finally:
+            K.restore_ids(st)
+        _RECIPE_SCHEMAS[key] = s
+    return _RECIPE_SCHEMAS[key]
 
 
 LAST_INFO = {}
@@ -118,11 +130,12 @@ def history(recipe: int, k: int, c0: int, c1: int, c2: int, c3: int) -> bool:
         cs.append(concrete_index(c, NMENU))
     if recipe < 0 or k < 0 or any(c < 0 for c in cs):
         return True
-    with untraced():
+    with untraced(heavy=True):
         return _history(recipe, cs)
 
 
 def _history(recipe, cs) -> bool:
+    K.reset_ids(0)
     s = recipe_schema(recipe)
     versions = [(s, K.observe(s))]
     log = []
@@ -179,7 +192,7 @@ def migration_reaches_target(ra: int, ka: int, a0: int, a1: int, rb: int, kb: in
         return True
     ca = [MIG_MENU[c] for c in ca]
     cb = [MIG_MENU[c] for c in cb]
-    with untraced():
+    with untraced(heavy=True):
         return _migration(MIG_RECIPES[ra], ca, MIG_RECIPES[rb], cb, exclude_known)
 
 
@@ -218,6 +231,7 @@ def _migration(ra, ca, rb, cb, exclude_known=True) -> bool:
     equals b; likewise when its DDL statements are replayed and accepted.
     A migration that is refused (EdgeDB error while computing or applying
     it) is outside the statement."""
+    K.reset_ids(0)
     a = build(ra, ca)
     b = build(rb, cb)
     cov.hit('step')
@@ -290,11 +304,12 @@ def path_independent(r1: int, c1: int, r2: int, c2: int, d2: int) -> bool:
     if min(r1, r2, c1, c2, d2) < 0:
         return True
     c1, c2, d2 = (MIG_MENU[c] if c < NMIG else None for c in (c1, c2, d2))
-    with untraced():
+    with untraced(heavy=True):
         return _path_independent(MIG_RECIPES[r1], c1, MIG_RECIPES[r2], c2, d2)
 
 
 def _path_independent(r1, c1, r2, c2, d2) -> bool:
+    K.reset_ids(0)
     empty = K.base_schema()
     s1 = build(r1, [c for c in (c1,) if c is not None])
     s2 = build(r2, [c for c in (c2, d2) if c is not None])
